@@ -260,6 +260,10 @@ func suiteSched(o *suiteOut, r *rng, tier string, n int) {
 		pool = append(pool, input{"ps", append([]byte("/s currentfile 600 string readstring\n"), bin...), "every split"})
 		pool = append(pool, input{"ps", append(append([]byte("currentfile 520 string readstring "), bin[:520]...), []byte(" pop length")...), "every split"})
 		pool = append(pool, input{"ps", append([]byte("currentfile 600 string readstring "), bin[:300]...), "every split"})
+		for _, p := range []string{"%!\ncurrentfile 3 string readstring ab\r%%Title: x\npop pop 7\n", "currentfile 2 string readstring \r\n%%A: b\npop pop\n",
+			"currentfile 4 string readstring abc\r%%A: b\r%%+ c\npop pop\n", "currentfile 1 string readstring x\r\n%%K: v\n pop pop %%L: w\n%%M: u\n"} {
+			pool = append(pool, input{"ps", []byte(p), "every split"})
+		}
 		mm := randMetrics(newRng(11))
 		at, _, _ := writeMetrics(mm)
 		if len(at) > 1400 {
@@ -569,6 +573,11 @@ func suiteFaults(o *suiteOut, r *rng, tier string, n int) {
 			fr := &faultReader{data: in.data, failAt: k, with: k%3 == 1, sticky: in.kind != "ps" && in.kind != "cmap"}
 			if k%4 == 2 {
 				fr.err = errWrappedEOF
+			}
+			if k%4 == 3 && k < len(in.data) {
+				// a source may fail with this very value (a truncated stream below it); at offset len the PFB decoder
+				// takes it for a short end-of-file record (13.9), so that offset is left out
+				fr.err = io.ErrUnexpectedEOF
 			}
 			got := runInput(in.kind, fr)
 			line := fmt.Sprintf("fault read %s %d %d with=%v wrapped-eof=%v", in.kind, idx, k, fr.with, fr.err != nil)
@@ -881,6 +890,14 @@ func suiteDeterminism(o *suiteOut, r *rng, tier string, n int) {
 // ---------------------------------------------------------------- isolation and races (C18)
 
 var hostilePrograms = []string{
+	// in-place changes of every array, procedure and string that is the value of an entry of a built-in dictionary
+	// (replacing an entry only changes this interpreter's dictionary; writing into a shared value would change all)
+	"/CIDInit /ProcSet findresource { exch pop dup type /arraytype eq { dup length 0 ne { dup 0 /stop load put } if } if pop } forall",
+	"/CIDInit /ProcSet findresource { exch pop dup type /arraytype eq { dup length 0 ne { dup 0 42 put } if } if pop } forall",
+	"systemdict { exch pop dup type /arraytype eq { dup length 0 ne { dup 0 /hacked put } if } if pop } forall",
+	"errordict { exch pop dup type /arraytype eq { dup length 0 ne { dup 0 /stop load put } if } if pop } forall",
+	"systemdict { exch pop dup type /stringtype eq { dup length 0 ne { dup 0 88 put } if } if pop } forall userdict { exch pop dup type /dicttype eq { /leak 1 put } { pop } ifelse } forall",
+	"systemdict { exch pop dup type /dicttype eq { { exch pop dup type /arraytype eq { dup length 0 ne { dup 0 /deep put } if } if pop } forall } { pop } ifelse } forall",
 	"systemdict /add { sub } put systemdict /def 5 put",
 	"systemdict /dup 7 put /pop {stop} def systemdict /systemdict 0 put",
 	"StandardEncoding 65 /hacked put StandardEncoding 32 /x put",
@@ -902,8 +919,67 @@ var hostilePrograms = []string{
 	"\n\n\n{ 1 pop } loop", "\n{ } loop", "\n\n\n\n\n\n/f { f 1 pop } def { f } loop",
 }
 
+// deepDump writes everything reachable from a fresh interpreter's dictionaries, including the elements of arrays
+// and procedures that are values of entries (a shared object mutated in place shows here)
+func deepDump(sb *strings.Builder, v postscript.Object, depth int, seen map[string]bool) {
+	if depth > 6 {
+		sb.WriteString("...")
+		return
+	}
+	switch v := v.(type) {
+	case postscript.Dict:
+		id := fmt.Sprintf("%p", v)
+		if seen[id] {
+			sb.WriteString("<seen>")
+			return
+		}
+		seen[id] = true
+		keys := make([]string, 0, len(v))
+		for k := range v {
+			keys = append(keys, string(k))
+		}
+		sort.Strings(keys)
+		sb.WriteString("<<")
+		for _, k := range keys {
+			sb.WriteString("/" + k + " ")
+			deepDump(sb, v[postscript.Name(k)], depth+1, seen)
+			sb.WriteString(" ")
+		}
+		sb.WriteString(">>")
+	case postscript.Array:
+		sb.WriteString("[")
+		for _, e := range v {
+			deepDump(sb, e, depth+1, seen)
+			sb.WriteString(" ")
+		}
+		sb.WriteString("]")
+	case postscript.Procedure:
+		sb.WriteString("{")
+		for _, e := range v {
+			deepDump(sb, e, depth+1, seen)
+			sb.WriteString(" ")
+		}
+		sb.WriteString("}")
+	case postscript.String:
+		fmt.Fprintf(sb, "(%x)", []byte(v))
+	case postscript.Integer, postscript.Real, postscript.Boolean, postscript.Name, postscript.Operator:
+		fmt.Fprintf(sb, "%T:%v", v, v)
+	case nil:
+		sb.WriteString("nil")
+	default:
+		fmt.Fprintf(sb, "%T", v) // builtins and other opaque values: the type only
+	}
+}
+
 func probeResults() string {
 	var sb strings.Builder
+	{
+		intp := postscript.NewInterpreter()
+		seen := map[string]bool{}
+		deepDump(&sb, intp.SystemDict, 0, seen)
+		deepDump(&sb, intp.Resources, 0, seen)
+		sb.WriteString("\n")
+	}
 	for _, p := range []string{"%%Title: probe\n%%Pages: 3\n%%+ more\n1", "1 2 add", "5 3 sub dup mul", "StandardEncoding 65 get StandardEncoding 32 get", "true false and", "/x 1 def x", "(a) 1 add",
 		"/CIDInit /ProcSet findresource begin 12 dict begin begincmap /CMapName /P def 1 begincodespacerange <00> <ff> endcodespacerange 1 begincidrange <00> <10> 5 endcidrange endcmap CMapName currentdict /CMap defineresource pop end end /P /CMap findresource /CodeMap get type",
 		"FontDirectory length userdict length errordict length systemdict length", "/Fake findfont", "1183615869 internaldict length", "foo", "pop"} {
